@@ -269,7 +269,8 @@ PROPS["C07"] = dict(
           "(every 5th case, always in thorough) group key and all public shares on one polynomial of degree <= t by Lagrange interpolation in G2 with the oracle, and t+1 honest participants reconstruct a signature valid under the group key. "
           "Non-trivial = a Byzantine participant performed a non-honest action and the delivery order was not FIFO; distinct by draw-record hash."),
     assumptions=BLS_ASSUME[:1] + ["the assumptions of the statement: round-synchronous delivery, reliable broadcast, at most t Byzantine participants", "Joint-Feldman: the disqualified set of a participant is read from its Disqualify callbacks; single-dealer protocol: from the End verdict"],
-    jobs=[J("TestC07_Agreement", 1500, 4000, shards=16), GF("TestC07_Agreement", 150, procs=16)],
+    jobs=[J("TestC07_Agreement", 1500, 4000, shards=16), GF("TestC07_Agreement", 150, procs=16),
+          J("cfuzz:POLY", 20000, 120, kind="cfuzz", target="POLY")],
 )
 
 PROPS["C08"] = dict(
@@ -279,7 +280,8 @@ PROPS["C08"] = dict(
           "or who left an honest complaint unanswered or answered it with a value not matching its vector, is disqualified by every honest participant; (g) plain Feldman VSS: every delivery order of (vector, share, one duplicate of each) x every kind of vector and share: End returns keys iff the first vector is valid (oracle) and the first share is well-formed and matches it, otherwise a DKG-failure error. "
           "Non-trivial = Byzantine non-honest action and non-FIFO delivery (simulator) / an invalid or inconsistent dealing (plain VSS); distinct by draw-record hash / by construction."),
     assumptions=BLS_ASSUME[:1] + ["the assumptions of the statement: round-synchronous delivery, reliable broadcast, at most t Byzantine participants"],
-    jobs=[J("TestC08_Fairness", 1000, 5000, shards=14), J("TestC08_PlainVSS", 2, 12, shards=6), GF("TestC08_Fairness", 150, procs=16)],
+    jobs=[J("TestC08_Fairness", 1000, 5000, shards=14), J("TestC08_PlainVSS", 2, 12, shards=6), GF("TestC08_Fairness", 150, procs=16),
+          J("cfuzz:POLY", 20000, 120, kind="cfuzz", target="POLY"), J("cfuzz:G2_VECTOR", 30000, 120, kind="cfuzz", target="G2_VECTOR")],
 )
 
 PROPS["C10"] = dict(
@@ -342,7 +344,7 @@ import json as _json
 import os as _os
 
 
-CFUZZ_TARGETS = {"C02": ["MULTI"], "C05": ["SER_E1", "SER_E2", "SER_FR"], "C09": ["SUM_VECTOR", "LAGRANGE", "G2_VECTOR", "VERIFY"]}
+CFUZZ_TARGETS = {"C02": ["MULTI"], "C05": ["SER_E1", "SER_E2", "SER_FR"], "C07": ["POLY"], "C08": ["POLY", "G2_VECTOR"], "C09": ["SUM_VECTOR", "LAGRANGE", "G2_VECTOR", "VERIFY"]}
 
 
 def _f1_known(verif):
@@ -398,6 +400,6 @@ def custom_replay(pid, path, repo, verif, work, goenv, log):
     return None
 
 NOT_APPLICABLE = {}
-EXTRA_ENGINES = [{"name": "cfuzz-libfuzzer", "path": "/verif/cfuzz", "serves_properties": ["C02", "C05", "C09"], "kind_free_text": "libFuzzer targets (clang -fsanitize=fuzzer,address,undefined) compiled against /repo's own C sources with in-target semantic oracles (canonical round trip, BLST ZCash differential, element-wise recomputation); pinned -seed/-runs in the quick tier, time-boxed forks in the thorough tier"},
+EXTRA_ENGINES = [{"name": "cfuzz-libfuzzer", "path": "/verif/cfuzz", "serves_properties": ["C02", "C05", "C07", "C08", "C09"], "kind_free_text": "libFuzzer targets (clang -fsanitize=fuzzer,address,undefined) compiled against /repo's own C sources with in-target semantic oracles (canonical round trip, BLST ZCash differential, element-wise recomputation); pinned -seed/-runs in the quick tier, time-boxed forks in the thorough tier"},
                  {"name": "overlay-inpackage", "path": "/verif/harness/inpkg", "serves_properties": ["C15"], "kind_free_text": "in-package exhaustive tape enumeration injected with go test -overlay"},
                  {"name": "cfgworker", "path": "/verif/harness/cfgworker", "serves_properties": ["C20"], "kind_free_text": "worker program built in four build configurations, driven by a rapid differential property"}]
